@@ -99,6 +99,13 @@ def main(tier):
                         fail(kind='lhs-out-of-bounds', vars=str(d), samples=nsamp, seed=seed)
                     if not np.array_equal(A, np.array(again)):
                         fail(kind='lhs-not-reproducible', vars=str(d), samples=nsamp, seed=seed)
+                    # the SAME seeded generator object invoked again (run_driver called twice, a generator shared by drivers)
+                    one = LatinHypercubeGenerator(samples=nsamp, criterion=criterion, seed=seed)
+                    first = np.array([flat_case(c, d) for c in one(d)])
+                    second = np.array([flat_case(c, d) for c in one(d)])
+                    if not np.array_equal(first, second) or not np.array_equal(first, A):
+                        fail(kind='lhs-not-reproducible', vars=str(d), samples=nsamp, seed=seed, what='second invocation of the same seeded generator object differs',
+                             first=first.tolist(), second=second.tolist())
                     for j in range(nfac):
                         if up[j] > lo[j]:
                             s = (A[:, j] - lo[j]) / (up[j] - lo[j])
@@ -117,6 +124,11 @@ def main(tier):
                 fail(kind='uniform-out-of-bounds', vars=str(d), seed=seed)
             if not np.array_equal(A, B):
                 fail(kind='uniform-not-reproducible', vars=str(d), seed=seed)
+            oneu = UniformGenerator(num_samples=3, seed=seed)
+            u1 = np.array([flat_case(c, d) for c in oneu(d)])
+            u2 = np.array([flat_case(c, d) for c in oneu(d)])
+            if not np.array_equal(u1, u2) or not np.array_equal(u1, A):
+                fail(kind='uniform-not-reproducible', vars=str(d), seed=seed, what='second invocation of the same seeded generator object differs')
         # other pyDOE designs: bounds only
         for gen in (PlackettBurmanGenerator(),) + ((BoxBehnkenGenerator(),) if nfac >= 3 else ()):
             ev += 1
